@@ -52,7 +52,7 @@ def obligations():
             d = dict(DEFS)
             obs.append(Ob(id='C02.' + n, props=['C02', 'C03', 'C01'], quick_for=['C02'] if (kind, sh) in (('face', 'twotets'),) else [], tu='kernel', tier='B', roots=[TK + '::delete_' + kind] + ROOTS_BUILD,
                           harness=H % dict(kid=kid, H=Hn, F=F, n=n), includes=['wf.h', 'view.h', 'add_spec.h', 'query_spec.h', 'gc_spec.h', 'shapes.h'], copies=[TK], defines=d,
-                          unwind=26, adaptive_unwind=True, unwind_start=6, covers=1, timeout=1500, inits={'tk_init': TK}, prebuild_shape=SHAPES[sh],
+                          unwind=40, adaptive_unwind=True, unwind_start=8, covers=1, timeout=1500, inits={'tk_init': TK}, prebuild_shape=SHAPES[sh],
                           enum=[('ENUM_MODE', [0, 1, 2]), ('ENUM_H', range(N))],
                           bounds=dict(shape=sh, victims='every %s of the shape' % kind, modes='deferred, immediate (shift), immediate (fast)', instances=3 * N),
                           note='composite delete_%s on the constructive shape "%s": every victim x {deferred, shift, fast}, %d enumerated instances, one CBMC run each' % (kind, sh, 3 * N)))
